@@ -35,8 +35,10 @@ LEVEL_TEXT = ('Theorems over the Gallina model Expiry.v for every cache state, c
 LEVEL_NOTE = ('Trusted: Coq kernel, the hand-written model Expiry.v, the correspondence harness (clock replacement, re-stamping '
               'of tile files written during a request with the simulated instant, decoding of tile colours).  Time is exact in '
               'quarter seconds; float rounding of time.time() and DST handling of mktime are not modelled (TZ=UTC).  Requests '
-              'with duplicate or None coordinates, minimize_meta_requests, bulk_meta_tiles, rescale_tiles, the mbtiles ttl option '
-              'and concurrent writers are outside the model.')
+              'with duplicate or None coordinates, minimize_meta_requests, bulk_meta_tiles, rescale_tiles, the mbtiles ttl option, '
+              'link_single_color_images: hardlink (shared inode mtime; oracle-only scenario, known finding) and concurrent '
+              'writers are outside the model.  Histories run under TZ UTC, EST-5 and WST5, with and without a pre_store_filter, '
+              'over plain and symlinked single colour file caches, with response bodies that break while they are read.')
 DESIGN_REF = 'DESIGN.md section 5, C13'
 RULE = ('case = one history (backend, meta mode, initial cache with timestamps, rule, clock, upstream script, 5-14 events); '
         'non-trivial = at least one request that meets a stale or missing tile and one request that meets a fresh tile, or an '
@@ -46,7 +48,7 @@ TRUSTED = ['model Expiry.v hand-written from cache/tile.py, seed/config.py, util
            'clock control: module attributes `time` (cache/mbtiles.py, cache/base.py) and `datetime` (util/times.py) are replaced '
            'by shims; files written by a request are re-stamped with the simulated instant afterwards']
 ASSUMPTIONS = ['the clock does not change inside one request', 'no other process writes the cache during a request',
-               'TZ=UTC (mktime without DST)', 'requests contain no duplicate and no None coordinate',
+               'time zone without DST transitions (mktime unambiguous); UTC, UTC+5 and UTC-5 are exercised', 'requests contain no duplicate and no None coordinate',
                'timestamps are non-negative (after 1970)']
 EXPLANATION = ('staleness decision, refetch, fresh-hit, stale fallback and convergence proved for all states; implementation driven '
                'through histories with boundary-biased timestamps (equal second, fractional mtimes, relative thresholds)')
@@ -59,6 +61,9 @@ EXTENT = 32
 RES = [8, 4, 2]            # 1x1, 2x2, 4x4 tiles
 META = (2, 2)
 REAL_PAST = 1500000000     # any mtime above this was written by the kernel clock during a request
+FILTER = 1 << 19           # what the pre_store_filter adds to the content of a created tile
+OLD_COLOUR_FILE = (BASE - 1000) * Q   # stamp of the shared files of linked single colour tiles (written "long ago")
+ZONES = ['UTC', 'EST-5', 'WST5']      # POSIX TZ strings: UTC, UTC+5, UTC-5 (no DST: mktime is unambiguous)
 
 SIG_STALE = 'stale-tile-not-refetched'
 SIG_FRESH = 'upstream-request-not-caused-by-a-missing-or-stale-requested-tile'
@@ -68,6 +73,8 @@ SIG_SERVED = 'served-content-wrong'
 SIG_CONVERGE = 'refreshed-tile-still-stale'
 SIG_PROBE = 'is_cached-is_stale-answer-wrong'
 SIG_CRASH = 'unexpected-exception'
+SIG_LINK = 'linked-single-colour-tile,refresh-with-same-colour-keeps-old-timestamp'
+SIG_HARDLINK = 'hardlink-single-colour-tile,same-colour-re-store-never-fresh'
 SIG_SEED = 'seed-task-did-not-refetch-stale-tile'
 SIG_SEED_WALK = 'seed-task-did-not-examine-every-meta-tile'
 
@@ -132,7 +139,11 @@ def make_fake_datetime(clock):
     class DT(_datetime.datetime):
         @classmethod
         def now(cls, tz=None):
-            return _datetime.datetime(1970, 1, 1) + _datetime.timedelta(microseconds=clock.ticks * (1000000 // Q))
+            t = (_datetime.datetime(1970, 1, 1, tzinfo=_datetime.timezone.utc)
+                 + _datetime.timedelta(microseconds=clock.ticks * (1000000 // Q)))
+            if tz is not None:
+                return t.astimezone(tz)
+            return t.astimezone().replace(tzinfo=None)      # naive local wall clock, as datetime.now() gives
 
     class Mod(object):
         datetime = DT
@@ -167,6 +178,44 @@ class Patched(object):
 
 # ----------------------------------------------------------------------------- world
 
+def outcome_of(script, k):
+    oc = tuple(script[k]) if k < len(script) else ('ok', True, False, k)
+    if oc[0] == 'ok' and len(oc) < 4:
+        oc = oc + (k,)
+    return oc
+
+
+def broken_source(opts):
+    """200 OK with image headers, wrapped unread in an ImageSource; the body breaks when it is read"""
+    import http.client
+    import io
+    from mapproxy.image import ImageSource
+
+    class BrokenImageSource(ImageSource):
+        def as_buffer(self, *a, **kw):
+            raise http.client.IncompleteRead(b'')
+
+        def as_image(self):
+            raise http.client.IncompleteRead(b'')
+
+    return BrokenImageSource(io.BytesIO(b''), size=None, image_opts=opts, cacheable=True)
+
+
+def make_filter(opts):
+    """a pre_store_filter of the watermark kind: the tile gets a brand new ImageSource (cacheable defaults to True)"""
+    def tile_filter(tile):
+        from mapproxy.image import ImageSource
+        from PIL import Image
+        img = tile.source.as_image()
+        tile.source = ImageSource(Image.new('RGB', img.size, enc_colour(dec_image(img) + FILTER)), image_opts=opts)
+        return tile
+    return tile_filter
+
+
+def local_text(sec, fmt):
+    return _time.strftime(fmt, _time.localtime(sec))
+
+
 class Source(object):
     supports_meta_tiles = True
     coverage = None
@@ -198,19 +247,21 @@ class Source(object):
                     blocks.append((tx, ty, level))
         k = len(self.calls)
         self.calls.append(sorted(blocks))
-        oc = w.script[k] if k < len(w.script) else ('ok', True, False)
+        oc = outcome_of(w.script, k)
+        if oc[0] == 'broken':
+            return broken_source(w.opts)
         if oc[0] == 'err':
             raise SourceError('scripted upstream failure %d' % k)
         if oc[0] == 'blank':
             raise BlankImage()
-        img = Image.new('RGB', tuple(size), enc_colour(k))
+        img = Image.new('RGB', tuple(size), enc_colour(oc[3]))
         src = ImageSource(img, image_opts=w.opts, cacheable=bool(oc[1]))
         src.authorize_stale = bool(oc[2])
         return src
 
 
 class World(object):
-    def __init__(self, base, backend, meta, script, clock):
+    def __init__(self, base, backend, meta, script, clock, use_filter=False):
         from mapproxy.cache.base import TileLocker
         from mapproxy.cache.tile import TileManager
         from mapproxy.grid import TileGrid
@@ -220,9 +271,14 @@ class World(object):
                              origin='ll')
         self.opts = ImageOptions(format='image/png')
         self.cache_dir = os.path.join(base, 'cache')
+        self.is_file = backend in ('file', 'filelink', 'filehard')
         if backend == 'file':
             from mapproxy.cache.file import FileCache
             self.cache = FileCache(self.cache_dir, 'png')
+        elif backend in ('filelink', 'filehard'):
+            from mapproxy.cache.file import FileCache
+            self.cache = FileCache(self.cache_dir, 'png',
+                                   link_single_color_images='hardlink' if backend == 'filehard' else True)
         elif backend == 'mbtiles':
             from mapproxy.cache.mbtiles import MBTilesCache
             os.makedirs(self.cache_dir)
@@ -233,12 +289,13 @@ class World(object):
         self.locker = TileLocker(os.path.join(base, 'locks'), 10, self.cache.lock_cache_id)
         self.source = Source(self)
         self.tm = TileManager(self.grid, self.cache, [self.source], 'png', self.locker, image_opts=self.opts,
-                              meta_size=list(META) if meta else None, meta_buffer=0 if meta else None)
+                              meta_size=list(META) if meta else None, meta_buffer=0 if meta else None,
+                              pre_store_filter=[make_filter(self.opts)] if use_filter else None)
         assert (self.tm.meta_grid is not None) == bool(meta)
         self.ref_file = os.path.join(base, 'datasource.ref')
         self.univ = universe()
         self.paths = {}
-        if backend == 'file':
+        if self.is_file:
             from mapproxy.cache.tile import Tile
             for c in self.univ:
                 self.paths[os.path.normpath(self.cache.tile_location(Tile(c)))] = c
@@ -260,14 +317,14 @@ class World(object):
         from PIL import Image
         img = Image.new('RGB', (TS, TS), enc_colour(content))
         self.cache.store_tile(Tile(c, ImageSource(img, image_opts=self.opts)))
-        if self.backend == 'file':
+        if self.is_file:
             p = self.cache.tile_location(Tile(c))
             ns = ts_ticks * (1000000000 // Q)
-            os.utime(p, ns=(ns, ns))
+            os.utime(p, ns=(ns, ns), follow_symlinks=False)
+            self.restamp()
         else:
             assert ts_ticks % Q == 0
-            s = _datetime.datetime(1970, 1, 1) + _datetime.timedelta(seconds=ts_ticks // Q)
-            txt = s.strftime('%Y-%m-%d %H:%M:%S')
+            txt = local_text(ts_ticks // Q, '%Y-%m-%d %H:%M:%S')
             self.tm.cleanup()
             for f in self.db_files():
                 db = sqlite3.connect(f)
@@ -277,8 +334,9 @@ class World(object):
                 db.close()
 
     def restamp(self):
-        """tile files written by the request carry the kernel's wall clock; give them the simulated instant"""
-        if self.backend != 'file':
+        """tile files (or links) written by the request carry the kernel's wall clock: give them the simulated instant;
+        the shared files of linked single colour tiles get an old stamp (the tile's own time stamp is the link's)"""
+        if not self.is_file:
             return
         ns = self.clock.ticks * (1000000000 // Q)
         for p in self.paths:
@@ -287,13 +345,20 @@ class World(object):
             except OSError:
                 continue
             if st.st_mtime > REAL_PAST:
-                os.utime(p, ns=(ns, ns))
+                os.utime(p, ns=(ns, ns), follow_symlinks=False)
+        d = os.path.join(self.cache_dir, 'single_color_tiles')
+        if os.path.isdir(d):
+            old = OLD_COLOUR_FILE * (1000000000 // Q)
+            for fn in os.listdir(d):
+                p = os.path.join(d, fn)
+                if os.lstat(p).st_mtime > REAL_PAST:
+                    os.utime(p, ns=(old, old))
 
     def dump(self):
         """{coord: (content, ts_ticks)}; ts -1 when it is not an exact tick"""
         from PIL import Image
         out = {}
-        if self.backend == 'file':
+        if self.is_file:
             for p, c in self.paths.items():
                 try:
                     st = os.lstat(p)
@@ -312,7 +377,7 @@ class World(object):
                 db = sqlite3.connect(f)
                 for x, y, z, data, lm in db.execute('SELECT tile_column, tile_row, zoom_level, tile_data, last_modified FROM tiles'):
                     try:
-                        ts = calendar.timegm(_time.strptime(lm, '%Y-%m-%d %H:%M:%S')) * Q
+                        ts = int(_time.mktime(_time.strptime(lm, '%Y-%m-%d %H:%M:%S'))) * Q
                     except Exception:  # noqa
                         ts = -1
                     try:
@@ -407,7 +472,7 @@ def rule_conf(rule, ref_file):
     """the dictionary a configuration would contain"""
     d = {}
     if rule.get('time') is not None:
-        d['time'] = (_datetime.datetime(1970, 1, 1) + _datetime.timedelta(seconds=rule['time'])).strftime('%Y-%m-%dT%H:%M:%S')
+        d['time'] = local_text(rule['time'], '%Y-%m-%dT%H:%M:%S')
     if rule.get('mtime'):
         d['mtime'] = ref_file
     for k in ('weeks', 'days', 'hours', 'minutes'):
@@ -441,8 +506,11 @@ def is_stale_ts(ts, thr):
 def classify_exc(e):
     from mapproxy.source import SourceError
     from mapproxy.seed.config import SeedConfigurationError
+    import http.client
     if isinstance(e, SourceError):
         return 'source'
+    if isinstance(e, http.client.IncompleteRead):
+        return 'body'
     if isinstance(e, SeedConfigurationError):
         return 'cfg'
     return 'other:' + type(e).__name__
@@ -450,12 +518,26 @@ def classify_exc(e):
 
 def run_history(ctx, h):
     """h: dict(backend, meta, init=[(coord, content, ts)], rule, expire, now, ref, script, events).  Returns observations."""
+    saved_tz = os.environ.get('TZ')
+    os.environ['TZ'] = h.get('tz', 'UTC')
+    _time.tzset()
+    try:
+        return run_history_tz(ctx, h)
+    finally:
+        if saved_tz is None:
+            os.environ.pop('TZ', None)
+        else:
+            os.environ['TZ'] = saved_tz
+        _time.tzset()
+
+
+def run_history_tz(ctx, h):
     clock = Clock()
     clock.ticks = h['now']
     base = ctx.tmpdir('w')
     steps = []
     with Patched(clock):
-        w = World(base, h['backend'], h['meta'], h['script'], clock)
+        w = World(base, h['backend'], h['meta'], h['script'], clock, use_filter=bool(h.get('filter')))
         for c, content, ts in h['init']:
             w.put_initial(tuple(c), content, ts)
         w.set_ref(h['ref'])
@@ -543,7 +625,11 @@ def oracle(ctx, h, ob):
     script = h['script']
 
     def outcome(k):
-        return script[k] if k < len(script) else ('ok', True, False)
+        return outcome_of(script, k)
+
+    def new_content(k):
+        return outcome(k)[3] + (FILTER if h.get('filter') else 0)
+    outcome.new_content = new_content
 
     for idx, s in enumerate(ob['steps']):
         if s['kind'] == 'silent':
@@ -620,13 +706,13 @@ def oracle(ctx, h, ob):
                 continue
             if new != old:
                 ks = [k for k in covered.get(c, []) if outcome(k)[0] == 'ok' and outcome(k)[1]]
-                if not ks or new[0] != ks[-1]:
+                if not ks or new[0] != new_content(ks[-1]):
                     ctx.fail(SIG_DESTROY, 'tile %r changed from %r to %r without a successful cacheable upstream answer for it'
                              % (c, old, new), rep)
         for c, new in after.items():
             if c not in before:
                 ks = [k for k in covered.get(c, []) if outcome(k)[0] == 'ok' and outcome(k)[1]]
-                if not ks or new[0] != ks[-1]:
+                if not ks or new[0] != new_content(ks[-1]):
                     ctx.fail(SIG_DESTROY, 'tile %r appeared with entry %r without a cacheable upstream answer' % (c, new), rep)
         # (d) what is served
         if res[0] == 'served':
@@ -637,9 +723,11 @@ def oracle(ctx, h, ob):
                 else:
                     oc = outcome(ks[-1])
                     if oc[0] == 'ok':
-                        want = before[c][0] if (oc[2] and not meta and states[c] == 'stale') else ks[-1]
+                        want = before[c][0] if (oc[2] and not meta and states[c] == 'stale') else new_content(ks[-1])
                     elif oc[0] == 'blank':
                         want = before[c][0] if c in before else None
+                    elif oc[0] == 'broken':
+                        want = 'raise'
                     else:
                         want = before[c][0] if states[c] == 'stale' else 'raise'
                     if oc[0] == 'err' and states[c] == 'stale' and got != before[c][0]:
@@ -659,12 +747,22 @@ def oracle(ctx, h, ob):
             elif not meta and all(states.get(tuple(c)) == 'stale' for c in calls[-1]):
                 ctx.fail(SIG_FALLBACK, 'refresh of stale tile %r failed and the error was raised instead of serving the old tile'
                          % (calls[-1],), rep)
+        elif res == ('raised', 'body'):
+            ks = [s['first_call'] + j for j in range(len(calls))]
+            if not ks or outcome(ks[-1])[0] != 'broken':
+                ctx.fail(SIG_CRASH, 'a broken response body surfaced although the last upstream answer was %r'
+                         % (outcome(ks[-1]) if ks else None,), rep)
         # (e) a successful refresh makes the tile fresh (when the clock is past the threshold)
         if thr is not None and (s['now'] // Q) * Q > thr:
             for c, ks in covered.items():
                 oc = outcome(ks[-1])
                 if oc[0] == 'ok' and oc[1] and c in after and not (oc[2] and not meta and states.get(c) == 'stale'):
-                    if is_stale_ts(after[c][1], thr):
+                    if is_stale_ts(after[c][1], thr) and h['backend'] == 'filelink' and after[c] == before.get(c) \
+                            and after[c][0] == new_content(ks[-1]):
+                        ctx.fail(SIG_LINK, 'linked single colour tile %r (entry %r) was refreshed at %r with an image of the same '
+                                 'colour: the link keeps its old time stamp, the tile is still at or before the threshold %r '
+                                 'and will be fetched on every request' % (c, before[c], s['now'], thr), rep)
+                    elif is_stale_ts(after[c][1], thr):
                         ctx.fail(SIG_CONVERGE, 'tile %r was refreshed at %r but its timestamp %r is still at or before the '
                                  'threshold %r' % (c, s['now'], after[c][1], thr), rep)
 
@@ -706,9 +804,38 @@ def oracle_seed(ctx, h, s, thr, state, rep, outcome):
             ctx.fail(SIG_DESTROY, 'tile %r (entry %r) is gone after the seed task' % (c, old), rep)
         elif new != old:
             ks = [k for k in covered.get(c, []) if outcome(k)[0] == 'ok' and outcome(k)[1]]
-            if not ks or new[0] != ks[-1]:
+            if not ks or new[0] != outcome.new_content(ks[-1]):
                 ctx.fail(SIG_DESTROY, 'tile %r changed from %r to %r without a successful cacheable upstream answer for it'
                          % (c, old, new), rep)
+
+
+def hardlink_scenario(ctx):
+    """link_single_color_images: hardlink is outside the model (hard links share the inode and its mtime).  Oracle only:
+    a stale single colour tile that is refreshed with an image of the same colour must become fresh."""
+    t0 = BASE * Q
+    a = (0, 0, 2)
+    for same in (True, False):
+        h = {'backend': 'filehard', 'meta': False, 'init': [(a, INIT, t0)], 'rule': {'time': BASE + 2}, 'expire': None,
+             'now': t0 + 10 * Q, 'ref': None, 'script': [('ok', True, False, INIT if same else 5)] * 3,
+             'events': [('req', [a]), ('req', [a]), ('probe', a)]}
+        try:
+            ob = run_history(ctx, h)
+        except Exception as e:  # noqa
+            ctx.problem('harness', 'hard link scenario could not be run: %r' % (e,))
+            continue
+        ctx.case(('hardlink', same), True, None)
+        ctx.count('hardlink_scenario')
+        reqs = [s for s in ob['steps'] if s['kind'] == 'req']
+        probe = [s for s in ob['steps'] if s['kind'] == 'probe'][0]
+        rep = {'history': h, 'ticks_per_second': Q, 'upstream_log': ob['log'],
+               'results': [s['res'] for s in reqs], 'probe': probe['ans'],
+               'final_cache': sorted([list(c), list(v)] for c, v in ob['final'].items())}
+        if len(reqs[0]['calls']) != 1 or reqs[0]['res'][0] != 'served':
+            ctx.fail(SIG_STALE, 'hard link cache: stale tile %r was not fetched again: %r' % (a, reqs[0]['res']), rep)
+        elif reqs[1]['calls'] or probe['ans'] != [True, False]:
+            sig = SIG_HARDLINK if same else SIG_CONVERGE
+            ctx.fail(sig, 'hard link cache: tile %r refreshed at %r with %s colour is still stale (entry %r): the second request '
+                     'went upstream again' % (a, h['now'], 'the same' if same else 'another', ob['final'].get(a)), rep)
 
 
 # ----------------------------------------------------------------------------- generation
@@ -737,7 +864,9 @@ def gen_rule(rng, target, now_holder):
 
 
 def gen_history(rng, quick):
-    backend = rng.choice(['file', 'file', 'mbtiles', 'sqlite'])
+    backend = rng.choice(['file', 'file', 'filelink', 'mbtiles', 'sqlite'])
+    tz = rng.choice(ZONES)
+    use_filter = rng.random() < 0.3
     meta = rng.random() < 0.5
     level = rng.choice([1, 2, 2, 2])
     gw, gh = grid_size(level)
@@ -749,7 +878,7 @@ def gen_history(rng, quick):
     shared = t0 + rng.randrange(-2 * Q, 3 * Q)
     for i, c in enumerate(pool):
         ts = shared if rng.random() < 0.4 else t0 + rng.randrange(-3 * Q, 4 * Q)
-        if backend != 'file':
+        if backend in ('mbtiles', 'sqlite'):
             ts = (ts // Q) * Q
         init.append((c, INIT + i, ts))
     times = sorted(set(ts for _, _, ts in init))
@@ -777,7 +906,13 @@ def gen_history(rng, quick):
             elif x < 0.93:
                 script.append(('ok', rng.random() < 0.5, True))
             else:
-                script.append(('blank',))
+                script.append(('blank',) if rng.random() < 0.5 else ('broken',))
+    # explicit contents: normally the number of the answer, sometimes the colour an existing tile already has
+    for k, oc in enumerate(script):
+        if oc[0] == 'ok':
+            same = rng.random() < 0.15
+            v = rng.choice(init)[1] - (FILTER if use_filter else 0) if same else k
+            script[k] = oc + (v if v >= 0 else k,)
     events = []
     cur_now = now
     last_req = None
@@ -812,7 +947,7 @@ def gen_history(rng, quick):
             events.append(('rule', r2, e2))
         else:
             events.append(('ref', rng.choice([None, target, cur_now, cur_now - Q, t0 + rng.randrange(-2 * Q, 3 * Q)])))
-    return {'backend': backend, 'meta': meta, 'init': init, 'rule': rule, 'expire': expire, 'now': now, 'ref': ref,
+    return {'backend': backend, 'tz': tz, 'filter': use_filter, 'meta': meta, 'init': init, 'rule': rule, 'expire': expire, 'now': now, 'ref': ref,
             'script': script, 'events': events}
 
 
@@ -849,6 +984,29 @@ def fixed_histories():
                         'rule': None, 'expire': None, 'now': t0 + 10 * Q, 'ref': None, 'script': [('ok', True, False)] * 3 + [('err',)],
                         'events': [('seed', t0 + 2 * Q, False, 2), ('probe', b), ('seed', t0 + 2 * Q, True, 2), ('req', [b]),
                                    ('seed', None, False, 2)]})
+    # a response body that breaks while the store reads it (file cache, single tile path), an uncacheable answer with a
+    # pre_store_filter, linked single colour tiles, a relative rule away from UTC
+    for meta in (False, True):
+        out.append({'backend': 'file', 'meta': meta, 'init': [(a, INIT, t0), (b, INIT + 1, t0 + 8 * Q)],
+                    'rule': {'time': BASE + 2}, 'expire': None, 'now': t0 + 10 * Q, 'ref': None,
+                    'script': [('broken',), ('err',), ('ok', True, False, 7)],
+                    'events': [('req', [a, b]), ('probe', a), ('req', [a]), ('req', [a]), ('req', [a])]})
+        out.append({'backend': 'file', 'filter': True, 'meta': meta, 'init': [(a, INIT, t0), (b, INIT + 1, t0 + 8 * Q)],
+                    'rule': {'time': BASE + 2}, 'expire': None, 'now': t0 + 10 * Q, 'ref': None,
+                    'script': [('ok', False, False, 3), ('broken',), ('ok', True, False, 9)],
+                    'events': [('req', [a]), ('probe', a), ('req', [a, b]), ('req', [a]), ('req', [a])]})
+        out.append({'backend': 'filelink', 'meta': meta, 'init': [(a, INIT, t0), (b, INIT + 1, t0 + 8 * Q)],
+                    'rule': {'time': BASE + 2}, 'expire': None, 'now': t0 + 10 * Q, 'ref': None,
+                    'script': [('ok', True, False, 5), ('ok', True, False, 6)],
+                    'events': [('probe', b), ('req', [a, b]), ('req', [a, b]), ('probe', a), ('clock', t0 + 12 * Q),
+                               ('rule', {'seconds': Q}, None), ('req', [a])]})
+        for tz in ('EST-5', 'WST5'):
+            for backend in ('file', 'sqlite'):
+                out.append({'backend': backend, 'tz': tz, 'meta': meta, 'init': [(a, INIT, t0), (b, INIT + 1, t0 + 8 * Q)],
+                            'rule': {'hours': 1}, 'expire': None, 'now': t0 + 3600 * Q + 4 * Q, 'ref': None,
+                            'script': [('ok', True, False, 5)],
+                            'events': [('probe', a), ('probe', b), ('req', [a, b]), ('rule', {'time': BASE + 4}, None),
+                                       ('probe', b), ('seed', t0 + 3600 * Q + 2 * Q, False, 2)]})
     # fractional mtimes (file back-end only)
     for meta in (False, True):
         out.append({'backend': 'file', 'meta': meta, 'init': [(a, INIT, t0 + 3), (b, INIT + 1, t0 + Q + 1), (c, INIT + 2, t0 - 1)],
@@ -904,8 +1062,8 @@ def rlit(rule):
 
 def oclit(o):
     if o[0] == 'ok':
-        return '(UOk %s %s)' % (blit(o[1]), blit(o[2]))
-    return 'UErr' if o[0] == 'err' else 'UBlank'
+        return '(UOk %s %s %s)' % (blit(o[1]), blit(o[2]), zlit(o[3]))
+    return {'err': 'UErr', 'blank': 'UBlank', 'broken': 'UBroken'}[o[0]]
 
 
 def evlit(e, step=None):
@@ -942,6 +1100,8 @@ def oblit(s):
         return '(OReq (Raised ESource))'
     if res[1] == 'cfg':
         return '(OReq (Raised ECfg))'
+    if res[1] == 'body':
+        return '(OReq (Raised EBody))'
     return '(OReq (Served [Some (-99)]))'          # unexpected exception: cannot be produced by the model
 
 
@@ -956,8 +1116,9 @@ CHECKER = ("fun c => let '(m, ev, sc, tbl, c0, es, (obs_i, dump_i, log_i), univ)
 
 
 def case_term(h, ob):
-    floor_store = h['backend'] != 'file'
-    m = '(mkMgr %s %s %s %s)' % (rlit(h['rule']), olit(h['expire']), blit(h['meta']), blit(floor_store))
+    floor_store = h['backend'] in ('mbtiles', 'sqlite')
+    m = '(mkMgr %s %s %s %s %s %s)' % (rlit(h['rule']), olit(h['expire']), blit(h['meta']), blit(floor_store),
+                                       zlit(FILTER if h.get('filter') else 0), blit(h['backend'] == 'filelink'))
     ev = '(mkEnv %s %s)' % (zlit(h['now']), olit(h['ref']))
     tbl = llit(sorted(ob['members'].items()), lambda kv: '(%s, %s)' % (alit(kv[0]), llit(kv[1], alit)))
     c0 = llit(h['init'], lambda t: '(%s, mkEntry %s %s)' % (alit(t[0]), zlit(t[1]), zlit(t[2])))
@@ -965,7 +1126,7 @@ def case_term(h, ob):
     dump = llit(univ, lambda c: 'None' if c not in ob['final'] else '(Some (%s, %s))' % (zlit(ob['final'][c][0]), zlit(ob['final'][c][1])))
     log = llit(ob['log'], lambda cs: llit([tuple(c) for c in cs], alit))
     return '(%s, %s, %s, %s, %s, %s, (%s, %s, %s), %s)' % (
-        m, ev, llit(h['script'], oclit), tbl, c0, llit(list(zip(h['events'], ob['steps'])), lambda es: evlit(es[0], es[1])),
+        m, ev, llit([outcome_of(h['script'], k) for k in range(len(h['script']))], oclit), tbl, c0, llit(list(zip(h['events'], ob['steps'])), lambda es: evlit(es[0], es[1])),
         llit(ob['steps'], oblit), dump, log, llit(univ, alit))
 
 
@@ -995,6 +1156,8 @@ def run(ctx):
                  {'history': jsonable(h), 'upstream_log': ob['log'],
                   'results': [s.get('res', s.get('ans')) for s in ob['steps'] if s['kind'] != 'silent']})
         ctx.count('backend=' + h['backend'])
+        ctx.count('tz=' + h.get('tz', 'UTC'))
+        ctx.count('pre_store_filter=%s' % bool(h.get('filter')))
         ctx.count('meta=%s' % h['meta'])
         ctx.count('upstream_calls=%d' % min(len(ob['log']), 6))
         kind = 'none'
@@ -1011,4 +1174,5 @@ def run(ctx):
         descr.append({'history': jsonable(h), 'implementation': {
             'steps': [{k: v for k, v in s.items() if k not in ('before', 'after', 'rule', 'expire', 'ref')} for s in ob['steps']],
             'final_cache': sorted([list(c), list(v)] for c, v in ob['final'].items()), 'upstream_log': ob['log']}})
+    hardlink_scenario(ctx)
     ctx.corr_check('history', 'Expiry', CASE_TYPE, terms, CHECKER, lambda i: descr[i], shard=60)
